@@ -71,7 +71,7 @@ var srcUnits = []srcUnit{
 	{dir: "cal_types/indian_national", path: modPath + "/cal_types/indian_national", lean: "Indian", pre: "indian",
 		funcs: []string{"IsLeap", "ToJd", "JdTo", "GetMonthLen"}},
 	{dir: "cal_types/hijri", path: modPath + "/cal_types/hijri", lean: "Hijri", pre: "hijri",
-		funcs: []string{"IsLeap", "ToJd", "JdTo", "GetMonthLen"}, fix: map[string]bool{"useMonthData": false}},
+		funcs: []string{"IsLeap", "ToJd", "JdTo", "GetMonthLen", "MonthData.GetDateFromJd", "MonthData.GetJdFromDate"}, fix: map[string]bool{"useMonthData": false}},
 }
 
 // functions the translator does not read but maps to a definition of lean/Starcal/SrcExt.lean
@@ -117,10 +117,22 @@ func ownStruct(n *types.Named, pre string) (string, bool) {
 		case isBool(f.Type()):
 			fields = append(fields, "  "+f.Name()+" : Bool")
 		default:
+			if ar, ok := f.Type().Underlying().(*types.Array); ok && isInt(ar.Elem()) {
+				fields = append(fields, "  "+f.Name()+" : List Int") // [N]int: a list of N integers
+				continue
+			}
+			if mp, ok := f.Type().Underlying().(*types.Map); ok && isInt(mp.Key()) && isInt(mp.Elem()) {
+				fields = append(fields, "  "+f.Name()+" : List (Int × Int)") // map[int]int: an association list (GoSem.mapGet)
+				continue
+			}
 			// a slice of integers, or of (pointers to) another structure of the same package
 			sl, ok := f.Type().Underlying().(*types.Slice)
 			if !ok {
 				return "", false
+			}
+			if in, ok := sl.Elem().Underlying().(*types.Slice); ok && isInt(in.Elem()) {
+				fields = append(fields, "  "+f.Name()+" : List (List Int)")
+				continue
 			}
 			el := sl.Elem()
 			if pe, ok := el.(*types.Pointer); ok {
@@ -324,6 +336,8 @@ type fnTrans struct {
 	inFold    string         // translating the body of a range loop with state: the state pattern (`continue` / falling off the end is `pure (Flow.next pat)`, `return e` is `pure (Flow.ret e)`)
 	errRes    bool           // the function returns (T, error): the Lean result is `Option T` inside the panic monad, `none` = an error was returned
 	resType   string         // Lean type of the function's result
+	inWhile   bool           // translating the body of a `for cond { … }` loop that breaks or returns
+	nilRes    bool           // the function returns a pointer and `return nil` occurs: the Lean result is `Option T`
 	inCallArg bool           // translating an argument of a call: &v is the value v
 	knownNonNil map[types.Object]bool // error variables inside the then-branch of `if err != nil`
 	errOnly   bool           // the function's only result is an error: the Lean result is Bool (true = an error was returned)
@@ -344,6 +358,15 @@ func (t *fnTrans) withInout(rv string) string {
 		parts = append(parts, t.nameOf(o))
 	}
 	return "(" + strings.Join(parts, ", ") + ")"
+}
+
+// flowRet: `return v` inside a loop body; in the body of a `for cond { … }` loop with `break` the two ways of leaving
+// the loop early share the constructor: Sum.inl = the function returns, Sum.inr = break with the state
+func (t *fnTrans) flowRet(rv string) string {
+	if t.inWhile {
+		return "pure (GoSem.Flow.ret (Sum.inl " + rv + "))"
+	}
+	return "pure (GoSem.Flow.ret " + rv + ")"
 }
 
 func (t *fnTrans) isInout(o types.Object) bool {
@@ -835,6 +858,13 @@ func (t *fnTrans) expr(e ast.Expr) lexpr {
 		}
 		bail("selector %s", x.Sel.Name)
 	case *ast.IndexExpr:
+		if ar, ok := info.Types[x.X].Type.Underlying().(*types.Array); ok && isInt(ar.Elem()) {
+			return lexpr{"(GoSem.idx " + t.val(x.X) + " " + t.val(x.Index) + ")", true}
+		}
+		if mp, ok := info.Types[x.X].Type.Underlying().(*types.Map); ok && isInt(mp.Key()) && isInt(mp.Elem()) {
+			// m[k]: the zero value when the key is absent
+			return lexpr{"(GoSem.mapGet " + t.val(x.X) + " " + t.val(x.Index) + ")", false}
+		}
 		xt := info.Types[x.X].Type
 		if s, ok := xt.Underlying().(*types.Slice); ok && !isInt(s.Elem()) {
 			_ = t.leanType(xt) // a slice of one of the package's own structures, or outside the fragment
@@ -1255,7 +1285,7 @@ func (t *fnTrans) stmts(list []ast.Stmt, k string, depth int, nres int) string {
 			}
 			rv = t.withInout(rv)
 			if t.inFold != "" {
-				return ind(depth) + "pure (GoSem.Flow.ret " + rv + ")\n"
+				return ind(depth) + t.flowRet(rv) + "\n"
 			}
 			return ind(depth) + "pure " + rv + "\n"
 		}
@@ -1267,7 +1297,7 @@ func (t *fnTrans) stmts(list []ast.Stmt, k string, depth int, nres int) string {
 					if tup, ok := info.Types[c].Type.(*types.Tuple); ok && tup.Len() == 2 {
 						r := t.expr(c)
 						if t.inFold != "" {
-							return ind(depth) + "pure (GoSem.Flow.ret (← " + r.s + "))\n"
+							return ind(depth) + t.flowRet("(← "+r.s+")") + "\n"
 						}
 						return ind(depth) + r.s + "\n"
 					}
@@ -1300,14 +1330,26 @@ func (t *fnTrans) stmts(list []ast.Stmt, k string, depth int, nres int) string {
 				bail("error result that is neither nil nor a fresh error")
 			}
 			if t.inFold != "" {
-				return ind(depth) + "pure (GoSem.Flow.ret " + rv + ")\n"
+				return ind(depth) + t.flowRet(rv) + "\n"
+			}
+			return ind(depth) + "pure " + rv + "\n"
+		}
+		if t.nilRes && len(x.Results) == 1 {
+			rv := ""
+			if id, ok := x.Results[0].(*ast.Ident); ok && id.Name == "nil" {
+				rv = "none"
+			} else {
+				rv = "(some " + t.val(x.Results[0]) + ")"
+			}
+			if t.inFold != "" {
+				return ind(depth) + t.flowRet(rv) + "\n"
 			}
 			return ind(depth) + "pure " + rv + "\n"
 		}
 		if len(x.Results) == 1 {
 			r := t.expr(x.Results[0])
 			if t.inFold != "" {
-				return ind(depth) + "pure (GoSem.Flow.ret " + t.val(x.Results[0]) + ")\n"
+				return ind(depth) + t.flowRet(t.val(x.Results[0])) + "\n"
 			}
 			if r.eff {
 				return ind(depth) + r.s + "\n"
@@ -1319,12 +1361,15 @@ func (t *fnTrans) stmts(list []ast.Stmt, k string, depth int, nres int) string {
 			parts = append(parts, t.val(r))
 		}
 		if t.inFold != "" {
-			return ind(depth) + "pure (GoSem.Flow.ret (" + strings.Join(parts, ", ") + "))\n"
+			return ind(depth) + t.flowRet("("+strings.Join(parts, ", ")+")") + "\n"
 		}
 		return ind(depth) + "pure (" + strings.Join(parts, ", ") + ")\n"
 	case *ast.BranchStmt:
 		if x.Tok == token.CONTINUE && x.Label == nil && t.inFold != "" {
 			return ind(depth) + "pure (GoSem.Flow.next " + t.inFold + ")\n"
+		}
+		if x.Tok == token.BREAK && x.Label == nil && t.inWhile && t.inFold != "" {
+			return ind(depth) + "pure (GoSem.Flow.ret (Sum.inr " + t.inFold + "))\n"
 		}
 		bail("%s statement", x.Tok)
 	case *ast.AssignStmt:
@@ -1356,6 +1401,15 @@ func (t *fnTrans) stmts(list []ast.Stmt, k string, depth int, nres int) string {
 						v = "(← GoSem.setA (" + rn + ")." + fld + " " + t.val(index) + " " + v + ")"
 					}
 					return ind(depth) + "let " + rn + " := { " + rn + " with " + fld + " := " + v + " }\n" + t.stmts(rest, k, depth, nres)
+				}
+			}
+			// v, ok := m[k]
+			if len(x.Lhs) == 2 && len(x.Rhs) == 1 {
+				if ix, ok := x.Rhs[0].(*ast.IndexExpr); ok {
+					if mp, ok := info.Types[ix.X].Type.Underlying().(*types.Map); ok && isInt(mp.Key()) && isInt(mp.Elem()) {
+						vn, on := t.nameOf(lhsObj(x.Lhs[0])), t.nameOf(lhsObj(x.Lhs[1]))
+						return ind(depth) + "let (" + vn + ", " + on + ") := GoSem.mapGet2 " + t.val(ix.X) + " " + t.val(ix.Index) + "\n" + t.stmts(rest, k, depth, nres)
+					}
 				}
 			}
 			// x, err = f(...) of a translated (T, error) function: err is the Boolean "an error was returned"
@@ -1505,6 +1559,13 @@ func (t *fnTrans) stmts(list []ast.Stmt, k string, depth int, nres int) string {
 					if pn, ok := info.Uses[id].(*types.PkgName); ok && (pn.Imported().Path() == "log" || pn.Imported().Path() == "fmt") {
 						return t.stmts(rest, k, depth, nres)
 					}
+				}
+			}
+		}
+		if c, ok := x.X.(*ast.CallExpr); ok {
+			if id, ok := c.Fun.(*ast.Ident); ok && id.Name == "panic" {
+				if _, isB := info.Uses[id].(*types.Builtin); isB {
+					return ind(depth) + "none\n" // a run-time panic; what follows is unreachable
 				}
 			}
 		}
@@ -1670,13 +1731,24 @@ func (t *fnTrans) stmts(list []ast.Stmt, k string, depth int, nres int) string {
 		if x.Cond == nil {
 			bail("for without a condition")
 		}
+		exits := false
 		ast.Inspect(x.Body, func(n ast.Node) bool {
-			switch n.(type) {
-			case *ast.ReturnStmt, *ast.BranchStmt, *ast.ForStmt, *ast.RangeStmt:
-				bail("return / break / continue / nested loop inside a loop")
+			switch b := n.(type) {
+			case *ast.ReturnStmt:
+				exits = true
+			case *ast.BranchStmt:
+				if b.Label != nil || (b.Tok != token.BREAK && b.Tok != token.CONTINUE) {
+					bail("%s inside a loop", b.Tok)
+				}
+				exits = true
+			case *ast.ForStmt, *ast.RangeStmt:
+				bail("nested loop inside a `for cond` loop")
 			}
 			return true
 		})
+		if exits {
+			return t.whileLoop(x, rest, k, depth, nres)
+		}
 		set := map[types.Object]bool{}
 		t.assigned(x.Body.List, map[types.Object]bool{}, set)
 		var objs []types.Object
@@ -2026,6 +2098,49 @@ func (t *fnTrans) inoutArgs(e ast.Expr) []types.Object {
 	return out
 }
 
+// whileLoop: `for cond { … }` whose body may `break`, `continue` or `return` — GoSem.whileB (fuel as for whileFuel):
+// the body answers Flow.next state (go on), Flow.ret (Sum.inr state) (break) or Flow.ret (Sum.inl r) (return)
+func (t *fnTrans) whileLoop(x *ast.ForStmt, rest []ast.Stmt, k string, depth int, nres int) string {
+	if t.inFold != "" || t.inRange {
+		bail("a loop with break / return nested in another loop")
+	}
+	set := map[types.Object]bool{}
+	t.assigned(x.Body.List, map[types.Object]bool{}, set)
+	var objs []types.Object
+	for o := range set {
+		objs = append(objs, o)
+	}
+	sort.Slice(objs, func(i, j int) bool { return objs[i].Pos() < objs[j].Pos() })
+	var ns []string
+	for _, o := range objs {
+		ns = append(ns, t.nameOf(o))
+	}
+	pat := "()"
+	if len(ns) == 1 {
+		pat = ns[0]
+	} else if len(ns) > 1 {
+		pat = "(" + strings.Join(ns, ", ") + ")"
+	}
+	c := t.expr(x.Cond)
+	cs := "do " + c.s
+	if !c.eff {
+		cs = "do pure " + c.s
+	}
+	t.inFold, t.inWhile = pat, true
+	body := t.stmts(x.Body.List, "pure (GoSem.Flow.next "+pat+")", depth+2, nres)
+	t.inFold, t.inWhile = "", false
+	t.tmp++
+	rn := fmt.Sprintf("_r%d", t.tmp)
+	out := ind(depth) + "let " + rn + " ← GoSem.whileB (ρ := " + t.resType + ") GoSem.fuel\n" +
+		ind(depth+1) + "(fun " + pat + " => " + cs + ")\n" +
+		ind(depth+1) + "(fun " + pat + " => do\n" + body + ind(depth+1) + ")\n" +
+		ind(depth+1) + pat + "\n"
+	out += ind(depth) + "match " + rn + " with\n"
+	out += ind(depth) + "| GoSem.Flow.ret _v => pure _v\n"
+	out += ind(depth) + "| GoSem.Flow.next " + pat + " =>\n"
+	return out + t.stmts(rest, k, depth+1, nres)
+}
+
 func isErrorCtor(info *types.Info, c *ast.CallExpr) bool {
 	se, ok := c.Fun.(*ast.SelectorExpr)
 	if !ok {
@@ -2159,6 +2274,21 @@ func translateFunc(sp *srcPkg, all map[string]*srcPkg, name string, chk bool) (d
 	rt := strings.Join(rts, " × ")
 	if len(rts) > 1 {
 		rt = "(" + rt + ")"
+	}
+	if len(rts) == 1 && !t.errRes && !t.errOnly {
+		if _, isPtr := sp.info.Types[fd.Type.Results.List[0].Type].Type.(*types.Pointer); isPtr {
+			ast.Inspect(fd.Body, func(n ast.Node) bool {
+				if r, ok := n.(*ast.ReturnStmt); ok && len(r.Results) == 1 {
+					if id, ok := r.Results[0].(*ast.Ident); ok && id.Name == "nil" {
+						t.nilRes = true
+					}
+				}
+				return true
+			})
+			if t.nilRes {
+				rt = "(Option " + rt + ")" // a pointer result that may be nil
+			}
+		}
 	}
 	if t.errRes {
 		rt = "(Option " + rt + ")"
